@@ -77,6 +77,11 @@ for pid, (mods, suites) in SPEC.items():
             st["run_args"] = st["run_args"] + ["--capped", "1"]
     def kf(name, kind):
         return {"name": name, "bin": "bf", "gen": {"quick": ["--kind", kind, "--suite", name], "thorough": ["--kind", kind, "--suite", name]}, "run_args": ["--kind", kind, "--hang-secs", "20"]}
+    if pid in ("C05", "C07"):
+        # background collector: small store, every line also on a large reference manager
+        for k in ["bdd", "bcdd", "zbdd"]:
+            streams.append({"name": f"{k}-bggc", "bin": "bf", "proto": k, "gen": {"quick": ["--kind", k, "--suite", "bggc"], "thorough": ["--kind", k, "--suite", "bggc"]},
+                            "run_args": ["--kind", k, "--capped", "1"]})
     if pid == "C08":
         streams += [kf("kf-zbdd-reorder", "zbdd"), kf("kf-reorder-oom", "bdd")]
     if pid == "C14":
